@@ -19,6 +19,8 @@ type Req struct {
 	Id  string `json:"id,omitempty"`
 	Doc string `json:"doc,omitempty"`
 	On  bool   `json:"on,omitempty"`
+	// NoInherit makes a search non-inherited (default: inherited).
+	NoInherit bool `json:"no_inherit,omitempty"`
 }
 
 func eo(err error) string { return "ERR:" + err.Error() }
@@ -73,7 +75,7 @@ func SysDo(s *sys.System, r Req) string {
 		json.Unmarshal([]byte(js), &m)
 		return ref.Canon(m)
 	case "search":
-		srs, err := s.SearchFacts(ctx, loc, r.Doc, true)
+		srs, err := s.SearchFacts(ctx, loc, r.Doc, !r.NoInherit)
 		if err != nil {
 			return eo(err)
 		}
@@ -90,7 +92,7 @@ func SysDo(s *sys.System, r Req) string {
 		sort.Strings(vs)
 		return strings.Join(vs, ",")
 	case "listRules":
-		rs, err := s.ListRules(ctx, loc, true)
+		rs, err := s.ListRules(ctx, loc, !r.NoInherit)
 		if err != nil {
 			return eo(err)
 		}
@@ -160,7 +162,7 @@ func LocDo(l *core.Location, r Req) string {
 		}
 		return ref.Canon(map[string]interface{}(m))
 	case "search":
-		srs, err := l.SearchFacts(ctx, parse(r.Doc), true)
+		srs, err := l.SearchFacts(ctx, parse(r.Doc), !r.NoInherit)
 		if err != nil {
 			return eo(err)
 		}
@@ -177,7 +179,7 @@ func LocDo(l *core.Location, r Req) string {
 		sort.Strings(vs)
 		return strings.Join(vs, ",")
 	case "listRules":
-		rs, err := l.ListRules(ctx, true)
+		rs, err := l.ListRules(ctx, !r.NoInherit)
 		if err != nil {
 			return eo(err)
 		}
